@@ -311,6 +311,10 @@ func (rep *FuncReport) header(ex *VC) []string {
 
 // specFuncsOf collects the uninterpreted specification functions an expression mentions (through macros).
 func (ex *Exec) specFuncsOf(e Expr, out map[string]bool, seen map[string]bool) {
+	ex.specFuncsOfIn(e, out, seen, "")
+}
+
+func (ex *Exec) specFuncsOfIn(e Expr, out map[string]bool, seen map[string]bool, pkgPath string) {
 	var walk func(e Expr)
 	walk = func(e Expr) {
 		switch x := e.(type) {
@@ -352,7 +356,7 @@ func (ex *Exec) specFuncsOf(e Expr, out map[string]bool, seen map[string]bool) {
 				walk(a)
 			}
 			if id, ok := x.Fun.(EIdent); ok {
-				if sf := ex.prog.Contracts.Specs[id.Name]; sf != nil {
+				if sf := ex.prog.Contracts.Spec(id.Name, pkgPath); sf != nil {
 					if sf.Body == nil {
 						out[sf.Name] = true
 					} else if !seen[sf.Name] {
@@ -381,7 +385,7 @@ func (ex *Exec) emitAxioms(env *SpecEnv) {
 			continue
 		}
 		a := &ax{g: g, funcs: map[string]bool{}}
-		ex.specFuncsOf(g.E, a.funcs, map[string]bool{})
+		ex.specFuncsOfIn(g.E, a.funcs, map[string]bool{}, g.PkgPath)
 		axs = append(axs, a)
 	}
 	used := func(name string) bool { return vc.declared[quoteSym("spec|"+name)] }
